@@ -38,6 +38,7 @@ import (
 	"time"
 
 	"github.com/anishathalye/porcupine"
+	"github.com/openconfig/gnmi/ctree"
 )
 
 // KV is one reported leaf.
@@ -48,7 +49,9 @@ type KV struct {
 
 // HOp is one recorded operation. Values are positive ints; 0 stands for nil.
 //
-// Kind: add glv getleaf hval hupd query walk del delcond walkdel final
+// Kind: add glv getleaf hval hupd query walk del delcond walkdel final, and the
+// node accessors of c10_access_test.go: children isbranch (on the root or on the
+// node Get(Path) returns) and nkids nisbr nval nstr nwalk (on a retained node H)
 type HOp struct {
 	G    int      `json:"g"`
 	Kind string   `json:"kind"`
@@ -81,6 +84,30 @@ type HOp struct {
 	// Foreign: the tree handed out a value of a type nobody ever stored (recorded
 	// as -1 where it was observed): where and which type.
 	Foreign string `json:"foreign,omitempty"`
+
+	// The accessor dimension (c10_access_test.go).
+	//
+	// Via: which exported method made the observation where several map to one Kind:
+	//   glv   ""       GetLeafValue(Path)
+	//         "value"  Get(Path) followed by (*Tree).Value() (on the root: tr.Value())
+	//   walk  ""       Walk / WalkSorted
+	//         "string" String(), parsed back into leaves (Sorted is set: the keys of
+	//                  every level are documented to come out sorted)
+	Via string `json:"via,omitempty"`
+	// Base: (glv, getleaf, query; walk: len(Path)) the method is invoked on the
+	// sub-tree node n = Get(Path[:Base]) looked up inside the operation's interval,
+	// with Path[Base:] as its argument; reported paths are made absolute. 0 = on the root.
+	Base int `json:"base,omitempty"`
+	// Names: (children, nkids) the child names returned, sorted; Node is "map" or,
+	// when Children returned nil, "nil". (isbranch, nisbr) Node is "branch" or "other".
+	Names []string `json:"names,omitempty"`
+	// Dyn: (del) the path is the Dyn-th name (1-based) the Children call of the same
+	// goroutine that precedes it returned: the cache's Reset idiom
+	// `for name := range t.Children() { t.Delete([]string{name}) }`. Path holds what was deleted.
+	Dyn int `json:"dyn,omitempty"`
+
+	// nd: (getleaf) the node the lookup returned, whatever its kind (not recorded).
+	nd *ctree.Tree
 }
 
 // History is the replayable unit of the stress part.
@@ -117,15 +144,44 @@ func (o *HOp) String() string {
 			fmt.Fprintf(&b, " (parked below %q)", o.ParkNode)
 		}
 	case "glv":
-		fmt.Fprintf(&b, "GetLeafValue(%q)=%s", o.Path, vstr(o.Got))
+		switch {
+		case o.Via == "value" && len(o.Path) == 0:
+			fmt.Fprintf(&b, "root.Value()=%s", vstr(o.Got))
+		case o.Via == "value":
+			fmt.Fprintf(&b, "Get(%q).Value()=%s", o.Path, vstr(o.Got))
+		case o.Base > 0:
+			fmt.Fprintf(&b, "Get(%q).GetLeafValue(%q)=%s", o.Path[:o.Base], o.Path[o.Base:], vstr(o.Got))
+		default:
+			fmt.Fprintf(&b, "GetLeafValue(%q)=%s", o.Path, vstr(o.Got))
+		}
 	case "getleaf":
-		fmt.Fprintf(&b, "h%d:=GetLeaf(%q)=%s", o.H, o.Path, o.Node)
+		if o.Base > 0 {
+			fmt.Fprintf(&b, "h%d:=Get(%q).GetLeaf(%q)=%s", o.H, o.Path[:o.Base], o.Path[o.Base:], o.Node)
+		} else {
+			fmt.Fprintf(&b, "h%d:=GetLeaf(%q)=%s", o.H, o.Path, o.Node)
+		}
+	case "children", "isbranch", "nkids", "nisbr", "nval", "nstr", "nwalk":
+		b.WriteString(o.accessString())
+		if o.Foreign != "" {
+			fmt.Fprintf(&b, " (%s)", o.Foreign)
+		}
 	case "hval":
 		fmt.Fprintf(&b, "h%d@%q.Value()=%s", o.H, o.Path, vstr(o.Got))
 	case "hupd":
 		fmt.Fprintf(&b, "h%d@%q.Update(%d)", o.H, o.Path, o.Val)
 	case "query", "walk", "final":
-		fmt.Fprintf(&b, "%s(%q)=%s", visitKind(o), o.Path, kvstr(o.KV))
+		switch {
+		case o.Via == "string" && len(o.Path) == 0:
+			fmt.Fprintf(&b, "root.String()=%s", kvstr(o.KV))
+		case o.Via == "string":
+			fmt.Fprintf(&b, "Get(%q).String()=%s", o.Path, kvstr(o.KV))
+		case o.Kind == "query" && o.Base > 0:
+			fmt.Fprintf(&b, "Get(%q).Query(%q)=%s", o.Path[:o.Base], o.Path[o.Base:], kvstr(o.KV))
+		case o.Kind == "walk" && len(o.Path) > 0:
+			fmt.Fprintf(&b, "Get(%q).%s()=%s", o.Path, visitKind(o), kvstr(o.KV))
+		default:
+			fmt.Fprintf(&b, "%s(%q)=%s", visitKind(o), o.Path, kvstr(o.KV))
+		}
 		if o.Foreign != "" {
 			fmt.Fprintf(&b, " (%s)", o.Foreign)
 		}
@@ -383,6 +439,8 @@ func compile(h *History, strong bool) (*compiled, error) {
 			}
 			sort.Slice(co.outVals, func(a, b int) bool { return co.outVals[a] < co.outVals[b] })
 			c.ops = append(c.ops, co)
+		case "children", "isbranch", "nkids", "nisbr", "nval", "nstr", "nwalk":
+			continue // judged by the accessor rules (c10_access_test.go) and the differential oracle
 		case "query", "walk", "final":
 			if !o.Atomic && o.Kind != "final" {
 				continue // judged by the interval rule only
@@ -986,6 +1044,9 @@ func partitionHistory(h *History) (parts map[string]*History, ok bool) {
 		o := &h.Ops[i]
 		switch o.Kind {
 		case "add", "glv", "getleaf", "hval", "hupd":
+			if o.Kind == "glv" && len(o.Path) == 0 && o.Got == 0 {
+				continue // the root holds no value: true of every projection, left out of them
+			}
 			if len(o.Path) == 0 {
 				return nil, false
 			}
@@ -1014,7 +1075,8 @@ func partitionHistory(h *History) (parts map[string]*History, ok bool) {
 	for i := range h.Ops {
 		o := h.Ops[i]
 		switch {
-		case o.Kind == "query" || o.Kind == "walk":
+		case o.Kind == "query" || o.Kind == "walk" || isAccessKind(o.Kind):
+		case o.Kind == "glv" && len(o.Path) == 0:
 		case o.Kind == "final" || (isDelKind(o.Kind) && (len(o.Path) == 0 || o.Path[0] == "*")):
 			for x, ph := range parts {
 				po := o
@@ -1079,6 +1141,14 @@ func judge(h *History, exactTimeout, timeout time.Duration) (v hverdict) {
 		return hverdict{class: cl, msg: msg}
 	}
 	if cl, msg := intervalRule(h); cl != "" {
+		return hverdict{class: cl, msg: msg}
+	}
+	if w := widenHeld(h); w != nil {
+		if cl, msg := intervalRule(w); cl != "" {
+			return hverdict{class: cl, msg: "(visit of a retained node; its interval begins with the lookup that bound the node) " + msg}
+		}
+	}
+	if cl, msg := accessRules(h); cl != "" {
 		return hverdict{class: cl, msg: msg}
 	}
 	t0 := time.Now()
